@@ -156,6 +156,11 @@ type generator struct {
 // generating a new such node if none exist.
 func (gen *generator) node(dst graph.NodeAdder, id string) graph.Node {
 	if n, ok := gen.ids[id]; ok {
+		if gen.isInSubgraph() {
+			// A node seen before is still a member of
+			// the subgraph used as a vertex of an edge.
+			gen.appendSubgraphNode(n)
+		}
 		return n
 	}
 	n := dst.NewNode()
